@@ -2,6 +2,7 @@ package local
 
 import (
 	"bytes"
+	"io"
 
 	"github.com/buildbarn/bb-storage/pkg/blobstore/buffer"
 	"github.com/buildbarn/bb-storage/pkg/digest"
@@ -51,8 +52,12 @@ func (ib *inMemoryBlock) Put(sizeBytes int64) BlockPutWriter {
 	offsetBytes := ib.writeOffsetBytes
 	ib.writeOffsetBytes += int(sizeBytes)
 	return func(b buffer.Buffer) BlockPutFinalizer {
-		// Ingest data.
-		err := b.IntoWriter(bytes.NewBuffer(ib.data[offsetBytes:offsetBytes]))
+		// Ingest data. Only expose Write() of the bytes.Buffer.
+		// Its ReadFrom() insists on having bytes.MinRead of
+		// spare capacity, which causes it to reallocate when
+		// the blob is stored near the end of the block. Data
+		// would then no longer end up in ib.data.
+		err := b.IntoWriter(struct{ io.Writer }{bytes.NewBuffer(ib.data[offsetBytes:offsetBytes])})
 		return func() (int64, error) {
 			return int64(offsetBytes), err
 		}
